@@ -287,8 +287,7 @@ CLAIMED = {
                  "the reference interpreter's output; predicted fatals must give a non-zero exit." " Also run as filter / filter -x with a final bare boolean; higher-order functions apply/select/sort/fold/reduce/any/every with function literals that read enclosing locals; comma print, printn, lashed emit."),
         "note": ("Underdetermined by the documentation and therefore not generated or not judged (counted in evidence under excluded): the name typeof gives booleans (bool/boolean), re-assignment of a typed parameter "
                  "with another type, assignment to the key variables of a multi-key loop, modifying the collection a single-variable loop runs over, absent/error inside collection literals, comparisons "
-                 "with absent, emit of maps with leaves at different depths, array index 0, string slices out of bounds. Known finding: fatal errors inside a user-defined function's body become an (error) "
-                 "value. Not covered: tee/redirected output (C20), ENV, regex captures (C15), time functions (C16), positional-name edge cases with collisions, higher-order functions beyond apply/select/sort/any/every/fold/reduce on arrays."),
+                 "with absent, emit of maps with leaves at different depths, array index 0, string slices out of bounds. Not covered: tee/redirected output (C20), ENV, regex captures (C15), time functions (C16), positional-name edge cases with collisions, higher-order functions beyond apply/select/sort/any/every/fold/reduce on arrays."),
         "design_ref": "DESIGN.md section 4 C14, Appendix C",
     },
 }
